@@ -1,6 +1,7 @@
 (* Proofs about model/CodesSpec.v (C02). *)
 From Coq Require Import Lia.
 From Aqua Require Import Base Json Air Trace Handler Values Scalars Lens Exec RunExec RunTop CodesSpec.
+From Aqua Require Stream.
 Open Scope N_scope.
 Open Scope list_scope.
 
@@ -264,6 +265,73 @@ Proof.
          (fun _ _ => Some [1]), 10%nat, unlimited, (ib_world INull []), [7].
   eexists. split; [vm_compute; reflexivity|]. split; [vm_compute; reflexivity|].
   split; [reflexivity|discriminate].
+Qed.
+
+(* ------------------------------------------------------------------------------------------ *)
+(* 2b. compactification succeeds when every stream value points at an Ap / stream Call state *)
+
+Lemma nth_error_set_nth {A} (l : list A) (n m : nat) (a : A) :
+  nth_error (set_nth l n a) m =
+  if Nat.eqb n m then match nth_error l m with Some _ => Some a | None => None end else nth_error l m.
+Proof.
+  revert n m. induction l as [|y r IH]; intros n m.
+  - cbn. destruct (Nat.eqb n m); destruct m; reflexivity.
+  - destruct n as [|n]; destruct m as [|m]; cbn; try reflexivity. apply IH.
+Qed.
+
+Lemma length_set_nth {A} (l : list A) (n : nat) (a : A) : length (set_nth l n a) = length l.
+Proof. revert n. induction l as [|y r IH]; intros [|n]; cbn; auto. Qed.
+
+Lemma nth_N_set_nth {A} (l : list A) (p q : N) (a : A) :
+  Trace.nth_N (set_nth l (N.to_nat p) a) q =
+  if N.eqb p q then match Trace.nth_N l q with Some _ => Some a | None => None end else Trace.nth_N l q.
+Proof.
+  unfold Trace.nth_N. rewrite length_set_nth.
+  destruct (q <? N.of_nat (length l)) eqn:Eq.
+  - rewrite nth_error_set_nth.
+    destruct (N.eqb p q) eqn:Epq.
+    + apply N.eqb_eq in Epq. subst. rewrite Nat.eqb_refl. reflexivity.
+    + assert (Nat.eqb (N.to_nat p) (N.to_nat q) = false) as ->; [|reflexivity].
+      apply Nat.eqb_neq. intros H. apply N.eqb_neq in Epq. apply Epq. apply N2Nat.inj. exact H.
+  - destruct (N.eqb p q); reflexivity.
+Qed.
+
+(* one update succeeds on such a state and keeps the kind of every state *)
+Lemma update_generation_ok (h : handler cid) (p g : N) :
+  gen_state_at (result_trace cid h) p = true ->
+  exists h', update_generation cid h p g = inl h' /\
+             forall q, gen_state_at (result_trace cid h') q = gen_state_at (result_trace cid h) q.
+Proof.
+  unfold gen_state_at, update_generation, result_trace. intros H.
+  destruct (Trace.nth_N (k_result cid (h_keeper cid h)) p) as [st|] eqn:E; [|discriminate].
+  destruct st as [l r|c|gens|c|lore]; try discriminate.
+  - destruct c as [s|v|f]; try discriminate. destruct v as [c|c g0|c]; try discriminate.
+    eexists. split; [reflexivity|]. intros q. cbn [h_keeper with_keeper k_result with_result].
+    rewrite nth_N_set_nth. destruct (N.eqb p q) eqn:Epq; [|reflexivity].
+    apply N.eqb_eq in Epq. subst q. rewrite E. reflexivity.
+  - eexists. split; [reflexivity|]. intros q. cbn [h_keeper with_keeper k_result with_result].
+    rewrite nth_N_set_nth. destruct (N.eqb p q) eqn:Epq; [|reflexivity].
+    apply N.eqb_eq in Epq. subst q. rewrite E. reflexivity.
+Qed.
+
+Lemma apply_updates_ok (ups : list (N * N)) : forall (h : handler cid),
+  forallb (fun pg => gen_state_at (result_trace cid h) (fst pg)) ups = true ->
+  exists h', Stream.apply_updates (update_generation cid) h ups = inl h' /\
+             forall q, gen_state_at (result_trace cid h') q = gen_state_at (result_trace cid h) q.
+Proof.
+  induction ups as [|[p g] t IH]; intros h H; cbn [Stream.apply_updates]; [eauto|].
+  cbn [forallb fst] in H. apply andb_prop in H as [H1 H2].
+  destruct (update_generation_ok h p g H1) as (h1 & -> & Hk).
+  destruct (IH h1) as (h2 & -> & Hk2).
+  - apply forallb_forall. intros [q g'] Hin. cbn [fst]. rewrite Hk.
+    exact (proj1 (forallb_forall _ _) H2 (q, g') Hin).
+  - exists h2. split; [reflexivity|]. intros q. rewrite Hk2. apply Hk.
+Qed.
+
+Theorem compactify_sufficient : C02_compactify_sufficient_stmt.
+Proof.
+  intros h pl Hpos Hcrash. unfold Stream.run_plan.
+  destruct (apply_updates_ok _ _ Hpos) as (h' & -> & Hk). rewrite Hcrash. eauto.
 Qed.
 
 (* ------------------------------------------------------------------------------------------ *)
